@@ -47,3 +47,9 @@ ASSUME.update({
  "C09": ["the full ordered result is taken as the unpaged answer of the same handler (its order is checked against (time desc, ref desc) by the harness); which permanodes match is C08's business",
          "the token is modelled as a (time, ref) pair plus the signed/unsigned reading of the time, regenerated from query.go on every run; decimal printing/parsing itself is exercised, not modelled"],
 })
+ASSUME.update({
+ "C08": ["a world is a list of per-blob facts (type, size, deleted, mod/created time, owner's current attribute values, node types ever claimed, wholeRef); how the corpus derives them from claims is C06/C07's subject, and the facts the harness states are its own bookkeeping, never read back from the index",
+         "hypothesis wf_world (current camliNodeType values are among the types ever had; blobrefs distinct) is evaluated on every generated world (wf_worldb, proved to imply it)",
+         "a proper blobRefPrefix is modelled by the set of refs it matches (HasPrefix itself is C20's subject); constraint leaves outside the modelled fragment are checked against the reference evaluator only",
+         "Go's sort.Sort on the result (blobref sort) is assumed to sort; the unordered answers are compared as sets"],
+})
